@@ -62,7 +62,9 @@ class C61(hc.PProp):
             a = rng.choice(ACTIONS)
             pw = passwd_for(pwl, a)
             given = rng.choice([None, None, 'wrong', pw if pw not in (None, 'disable', 'none') else 'guess', pw if pw not in (None, 'disable', 'none') else None])
-            reqs.append({'id': index * 100 + k, 'action': a, 'src': rng.choice(CLIENTS), 'given': given, 'user': rng.choice(['admin', '', 'x'])})
+            # query strings and fragments, also with malformed percent-encodings: the request must be recognised (and access-checked) as the same manager request
+            suffix = rng.choice(['', '', '', '', '?x=1', '?x=%41', '?x=%zz', '?x=100%', '#%g1', '?a=%4', '?%', '#frag', '?x=%00'])
+            reqs.append({'id': index * 100 + k, 'action': a, 'src': rng.choice(CLIENTS), 'given': given, 'user': rng.choice(['admin', '', 'x']), 'suffix': suffix})
         plan['reqs'] = reqs
         plan['_lists'] = ['reqs']
         return plan
@@ -91,7 +93,7 @@ class C61(hc.PProp):
             hd = [(b'Host', b'simsquid:3128'), (b'X-Sim-Req', b'%d' % q['id'])]
             if q['given'] is not None:
                 hd.append((b'Authorization', b'Basic ' + base64.b64encode(('%s:%s' % (q['user'], q['given'])).encode())))
-            cl.add('send %s' % tok(hc.request_head(b'GET', b'http://simsquid:3128/squid-internal-mgr/' + q['action'].encode(), hd)))
+            cl.add('send %s' % tok(hc.request_head(b'GET', b'http://simsquid:3128/squid-internal-mgr/' + q['action'].encode() + q.get('suffix', '').encode(), hd)))
             cl.add('expect response timeout 20000000 soft')
         return scn, None
 
